@@ -391,7 +391,12 @@ def spec_instances(env, terms, extra_fuel=0):
     return insts
 
 
-def obligation_smt2(env, ob: Obligation, extra_fuel=0, negate=True):
+def obligation_smt2(env, ob: Obligation, extra_fuel=0, negate=True, sliced=False):
+    pc = ob.pc
+    if sliced:
+        # hypotheses since the head of the innermost loop with invariant only (a subset: sound for validity)
+        pc = ob.pc[ob.meta["pc_mark"]:]
+        ob = Obligation(ob.clause, ob.goal, pc, ob.path, ob.meta, ob.extra)
     terms = list(ob.pc) + [ob.goal]
     insts = spec_instances(env, terms, extra_fuel)
     # facts of the fixed axiom base (section 3.3) that are instantiated on the terms present
